@@ -395,7 +395,7 @@ type cloudDouble struct {
 func (c *cloudDouble) GetPortMappingByDomain(fullDomain string) (*models.PortMapping, error) {
 	c.s.park()
 	for _, m := range c.ents {
-		if m.FullDomain() == fullDomain {
+		if m.FullDomain() != "" && m.FullDomain() == fullDomain {
 			cp := *m
 			return &cp, nil
 		}
